@@ -116,6 +116,12 @@ class GridProp:
         if only:
             os.environ["VF_ONLY"] = only
         results = runner.run_items(self.MOD, tier)
+        extra_mod = os.environ.pop("VF_EXTRA_RESULTS", None)
+        if extra_mod and not only:
+            import importlib
+
+            enga.init()
+            results += importlib.import_module(extra_mod).run(runner.SEED)
         st = None
         if self.selftest:
             results, st = split_selftest(results, self.ID)
